@@ -32,6 +32,8 @@ type cfg struct {
 	name    string
 	keep    int
 	copy    bool
+	copies  int  // number of concurrent CopyTo threads (default 1 when copy is set)
+	unsafe  bool // unsafe_batch: batches return before they are persisted, so readers and copies are taken on roots that are never persisted under their own epoch
 	allStep bool
 	batches int
 }
@@ -68,10 +70,14 @@ func body(k cfg) func(c *drv.Ctx) {
 		var idx bleve.Index
 		vrt.Free(func() {
 			var err error
-			idx, err = bleve.NewUsing(base, bleve.NewIndexMapping(), scorch.Name, scorch.Name, map[string]interface{}{
+			conf := map[string]interface{}{
 				"numSnapshotsToKeep":     k.keep,
 				"scorchMergePlanOptions": bx.CopyConfig(bx.AggressiveMergePlan),
-			})
+			}
+			if k.unsafe {
+				conf["unsafe_batch"] = true
+			}
+			idx, err = bleve.NewUsing(base, bleve.NewIndexMapping(), scorch.Name, scorch.Name, conf)
 			if err != nil {
 				panic(err)
 			}
@@ -121,7 +127,17 @@ func body(k cfg) func(c *drv.Ctx) {
 		defer func() { vrt.Hook, vrt.StepHook = nil, nil }()
 
 		tok := make(chan int, 16)
-		tok2 := make(chan int, 16)
+		ncopies := 0
+		if k.copy {
+			ncopies = 1
+			if k.copies > 1 {
+				ncopies = k.copies
+			}
+		}
+		tok2 := make([]chan int, ncopies)
+		for n := range tok2 {
+			tok2[n] = make(chan int, 16)
+		}
 		var wg vrt.WaitGroup
 		wg.Add(2)
 		vrt.Go(func() {
@@ -140,8 +156,8 @@ func body(k cfg) func(c *drv.Ctx) {
 					return
 				}
 				vrt.Send(tok, j)
-				if k.copy {
-					vrt.Send(tok2, j)
+				for n := 0; n < ncopies; n++ {
+					vrt.Send(tok2[n], j)
 				}
 			}
 		})
@@ -174,19 +190,23 @@ func body(k cfg) func(c *drv.Ctx) {
 			held = nil
 			r.Close()
 		})
-		if k.copy {
+		for cn := 0; cn < ncopies; cn++ {
+			cn := cn
 			wg.Add(1)
 			vrt.Go(func() {
 				defer wg.Done()
-				vrt.Recv(tok2)
-				vrt.Recv(tok2)
+				vrt.Recv(tok2[cn])
+				vrt.Recv(tok2[cn])
 				if ic, ok := idx.(bleve.IndexCopyable); ok {
-					if err := ic.CopyTo(bleve.FileSystemDirectory(c.Dir + "/copy")); err != nil {
-						c.Fail("error:copyto", "CopyTo: %v", err)
+					dst := fmt.Sprintf("%s/copy%d", c.Dir, cn)
+					if err := ic.CopyTo(bleve.FileSystemDirectory(dst)); err != nil {
+						c.Fail("copy-failed", "CopyTo #%d failed while the index was written, merged and purged: %v", cn, err)
+					} else {
+						c.Count("copies_completed", 1)
 					}
 				}
 				for n := 2; n < k.batches; n++ {
-					vrt.Recv(tok2)
+					vrt.Recv(tok2[cn])
 				}
 			})
 		}
@@ -251,6 +271,8 @@ func Scenarios() []drv.Scenario {
 	return []drv.Scenario{
 		mk(cfg{name: "writer+reader-keep1", keep: 1, batches: 4}, d1r, d2),
 		mk(cfg{name: "writer+reader+copy-keep1", keep: 1, batches: 4, copy: true}, d1r, d2),
+		mk(cfg{name: "writer+reader+two-overlapping-copies-keep1", keep: 1, batches: 4, copy: true, copies: 2}, d1r, d2),
+		mk(cfg{name: "unsafe-writer+reader+two-overlapping-copies-keep1", keep: 1, batches: 4, copy: true, copies: 2, unsafe: true}, d1r, d2),
 		mk(cfg{name: "writer+reader-keep3", keep: 3, batches: 4}, nil, d1),
 		mk(cfg{name: "writer+reader-keep2-every-step", keep: 2, batches: 3, allStep: true}, nil, d1),
 	}
